@@ -149,9 +149,10 @@ Proof.
     destruct (N.eq_dec ai ai0) as [-> | Hne].
     + rewrite Hg in Ha. inversion Ha; subst. eexists. split; [eapply get_put_same; eauto | apply ch_reset; auto].
     + exists a. split; [rewrite get_put_other by congruence; exact Ha | same_tac].
-  - destruct (step_refresh _ _ _ Hs) as [-> | [_ [att' [rot [_ [_ [_ [_ [Ho _]]]]]]]]].
+  - destruct (step_refresh _ _ _ _ Hs) as [-> | [_ [att' [rot [_ [_ [_ [_ [Ho _]]]]]]]]].
     + exists a. split; [exact Ha | same_tac].
     + exists a. split; [rewrite (get_same_objs _ _ _ Ho); exact Ha | same_tac].
+  - destruct (get ai0 s); inversion Hs; subst. exists a. split; [exact Ha | same_tac].
 Qed.
 
 (* a step creates at most one adapter: a fresh one for an endpoint that had none *)
@@ -179,7 +180,8 @@ Proof.
   - destruct (reg s); inversion Hs; subst; left; reflexivity.
   - destruct (get ai s) as [a0 |] eqn:Hg; [| discriminate]. destruct (memN ai (reinst s)); [| discriminate].
     inversion Hs; subst; clear Hs. left. simpl. apply length_upd.
-  - destruct (step_refresh _ _ _ Hs) as [-> | [_ [att' [rot [_ [_ [_ [_ [Ho _]]]]]]]]]; left; [reflexivity | rewrite Ho; reflexivity].
+  - destruct (step_refresh _ _ _ _ Hs) as [-> | [_ [att' [rot [_ [_ [_ [_ [Ho _]]]]]]]]]; left; [reflexivity | rewrite Ho; reflexivity].
+  - destruct (get ai s); inversion Hs; subst. left; reflexivity.
 Qed.
 
 Lemma get_None_len : forall s ai, get ai s = None <-> (length (objs s) <= N.to_nat ai)%nat.
@@ -213,7 +215,7 @@ Proof. intros s l ai a a' H. destruct H as [-> _ _ | p _ -> | p _ -> | _ _ -> | 
 Lemma step_att : forall s l s', step s l = Some s' ->
   att s' = att s \/
   (exists e, l = SelPick e (N.of_nat (length (objs s))) /\ lookup e (att s) = None /\ att s' = (e, N.of_nat (length (objs s))) :: att s) \/
-  (exists r, l = Refresh r /\ refresh_effect s r s').
+  (exists r i, l = Refresh r i /\ refresh_effect s r i s').
 Proof.
   intros s l s' Hs. destruct l; try (destruct (step_len _ _ _ Hs) as [_ | [e [He [Hno [_ [Ha _]]]]]]; [| right; left; exists e; auto]);
     simpl in Hs.
@@ -234,7 +236,8 @@ Proof.
   - destruct (reg s); inversion Hs; subst; left; reflexivity.
   - destruct (get ai s) as [a0 |]; [| discriminate]. destruct (memN ai (reinst s)); [| discriminate].
     inversion Hs; subst; clear Hs. left. reflexivity.
-  - destruct (step_refresh _ _ _ Hs) as [-> | Hr]; [left; reflexivity | right; right; exists l; auto].
+  - destruct (step_refresh _ _ _ _ Hs) as [-> | Hr]; [left; reflexivity | right; right; exists l, inact; auto].
+  - destruct (get ai s); inversion Hs; subst. left; reflexivity.
 Qed.
 
 Lemma step_shrunk : forall s l s', step s l = Some s' -> shrunk s' = false -> shrunk s = false.
@@ -256,15 +259,16 @@ Proof.
   - destruct (reg s); inversion Hs; subst; exact H.
   - destruct (get ai s) as [a0 |]; [| discriminate]. destruct (memN ai (reinst s)); [| discriminate].
     inversion Hs; subst; clear Hs. exact H.
-  - destruct (step_refresh _ _ _ Hs) as [-> | (_ & att' & rot & _ & _ & _ & _ & _ & _ & _ & _ & _ & _ & _ & _ & _ & _ & Hsh)]; [exact H |].
+  - destruct (step_refresh _ _ _ _ Hs) as [-> | (_ & att' & rot & _ & _ & _ & _ & _ & _ & _ & _ & _ & _ & _ & _ & _ & _ & Hsh)]; [exact H |].
     rewrite Hsh in H. apply orb_false_iff in H. tauto.
+  - destruct (get ai s); inversion Hs; subst. exact H.
 Qed.
 
 (* while not shrunk, the attachment table only grows *)
 Lemma step_att_mono : forall s l s' e ai, step s l = Some s' -> shrunk s' = false ->
   lookup e (att s) = Some ai -> lookup e (att s') = Some ai.
 Proof.
-  intros s l s' e ai Hs Hsh Hl. destruct (step_att _ _ _ Hs) as [-> | [[e0 [_ [Hno ->]]] | [r [_ Hr]]]]; [exact Hl | |].
+  intros s l s' e ai Hs Hsh Hl. destruct (step_att _ _ _ Hs) as [-> | [[e0 [_ [Hno ->]]] | [r [i [_ Hr]]]]]; [exact Hl | |].
   - simpl. destruct (N.eqb e e0) eqn:He; [| exact Hl]. apply N.eqb_eq in He. subst. congruence.
   - destruct Hr as (_ & att' & rot & Hatt & _ & _ & _ & _ & Ha & _ & _ & _ & _ & _ & _ & _ & _ & Hs2).
     rewrite Hs2 in Hsh. apply orb_false_iff in Hsh. destruct Hsh as [_ Hex].
@@ -278,7 +282,7 @@ Proof.
   - destruct (step_adapter _ _ _ _ _ Hs Ha) as [a2 [Ha2 Hc]]. rewrite Ha' in Ha2. inversion Ha2; subst a2.
     rewrite (achg_aep _ _ _ _ _ Hc). eapply step_att_mono; eauto.
   - destruct (step_created _ _ _ _ _ Hs Ha Ha') as [e [-> [-> [Hno Hai]]]].
-    destruct (step_att _ _ _ Hs) as [Hsame | [[e0 [He0 [_ ->]]] | [r [Hr _]]]].
+    destruct (step_att _ _ _ Hs) as [Hsame | [[e0 [He0 [_ ->]]] | [r [i [Hr _]]]]].
     + exfalso. destruct (step_len _ _ _ Hs) as [Hl | [e1 [_ [_ [_ [Hatt _]]]]]].
       * apply get_None_len in Ha. rewrite <- Hl in Ha. apply get_None_len in Ha. congruence.
       * rewrite Hsame in Hatt. apply (f_equal (@length _)) in Hatt. simpl in Hatt. lia.
@@ -360,10 +364,11 @@ Proof.
     destruct (get_put _ _ _ _ _ _ Hg Hb) as [[-> ->] | [Hne Hb']]; [discriminate |].
     intros Hin. apply In_add_set in Hin. destruct Hin as [Hin | ->]; [revert Hin; eapply HE; eauto |].
     rewrite (HD _ _ Hg) in Hle. congruence.
-  - destruct (step_refresh _ _ _ Hs) as [-> | [_ [att' [rot [Hatt [Hrot [_ [Hr [Ho [Ha [_ [Hsel _]]]]]]]]]]]]; [eapply HE; eauto |].
+  - destruct (step_refresh _ _ _ _ Hs) as [-> | [_ [att' [rot [Hatt [Hrot [_ [Hr [Ho [Ha [_ [Hsel _]]]]]]]]]]]]; [eapply HE; eauto |].
     rewrite Hsel, Hrot. intros Hin. apply filter_In in Hin. destruct Hin as [_ Hok]. unfold rot_ok in Hok.
     rewrite Ha in Hle. rewrite Hle in Hok.
     assert (Hb' : get aj s = Some b) by (unfold get in *; rewrite <- Ho; exact Hb). rewrite Hb' in Hok. congruence.
+  - simpl in Hs. destruct (get ai s); inversion Hs; subst. eapply HE; eauto.
 Qed.
 
 Lemma InvDE_reachable : forall s, reachable s -> InvDE s.
